@@ -450,6 +450,12 @@ def blocks(ctx):
                         continue
                     out.append({"measure": measure, "N": N, "A": alpha, "params": params, "scale": scale,
                                 "dtype": dtype, "variant": v})
+            if N in (2, 3):
+                # heavy tail: one outcome two orders of magnitude worse (better, for the positive alphabet)
+                heavy = [2, 8, 800] if measure == "iso" else [-800, 0, 4]
+                for dtype in ("float64", "float32"):
+                    out.append({"measure": measure, "N": N, "A": heavy, "params": params, "scale": 1.0,
+                                "dtype": dtype, "variant": V_MOD if measure != "var" else FULL_VARIANTS[5]})
             if measure in ("qcvar", "erm", "es"):
                 # large common offset (cash component): centring / logsumexp stability
                 out.append({"measure": measure, "N": N, "A": alpha, "params": params, "scale": 1.0,
